@@ -6,6 +6,7 @@ import uuid
 from harness import gen_c08 as G8
 from harness.impl_serial import impl_serial_op, enc_val, enc_str, Opaque
 
+DECOY_TWINS = {"quick": 0.08, "thorough": 0.2}     # engine: decoy twins (harness/decoy.py)
 ID = "C08"
 LEAN_MODULE = "BioCantor.Props.C08"
 DESIGN_REF = "4/C08"
